@@ -245,6 +245,14 @@ def c05_streams(tier, rng, ctx):
              # a scheme prefix together with an expansion, in the text and in a variable's value (P = file:///foo/bar): expansion comes first, then the prefix goes
              "file://~/foo", "ftp://~", "HTTPS://~/a/../b", "file://$V", "file://$V/x", "http://${V}", "$P", "$P/x", "${P}/../y", "~/$P", "x/$P", "file://$P"]
     strs += extra
+    # longer arguments built from components: every sequence of up to five of '..', '.', a name and an empty component, relative and rooted
+    import itertools
+    for k in range(1, 6):
+        for t in itertools.product(["..", ".", "a", ""], repeat=k):
+            strs.append("/".join(t))
+            if k <= 4:
+                strs.append("/" + "/".join(t))
+    strs = list(dict.fromkeys(strs))
     base = os.path.join(ctx["work"], "..", "..", "sb", "c05")
     base = os.path.normpath(base)
     cwds = ["/", "/a", "/a/b", "/a/b/é"]
